@@ -394,11 +394,12 @@ fn body_case(
 
 fn json_coq(ct: &Option<Vec<u8>>, body: &[u8], framing: &Framing) -> String {
     format!(
-        "{} {} {} {} None",
+        "{} {} {} {} {} None",
         g_hdr(ct),
         CAP,
         g_list(&frames_of(body, framing), |f| g_bytes(f)),
-        g_opt(&bj_oracle(body), |s| g_struct(s))
+        g_opt(&bj_oracle(body), |s| g_struct(s)),
+        bj_strict(body)
     )
 }
 
@@ -679,10 +680,7 @@ pub fn all_bad(rng: &mut Rng, i: usize) -> Case {
     target.push(b'?');
     target.extend_from_slice(&qs);
     let body = format!("{{\"tag\":\"bt\",\"n\":{}}}", bn).into_bytes();
-    let oracle = serde_json::from_slice::<crate::ep::Tag>(&body).ok().map(|t| {
-        use crate::ep::EchoStruct;
-        t.fields()
-    });
+    let oracle = tag_oracle(&body);
     let framing = gen_framing(rng, body.len(), &mut t2);
     let ct = Some(b"application/json".to_vec());
     let coq_in = format!(
